@@ -775,8 +775,8 @@ part_h(Ctx& ctx)
   w.g.init(w.tpl);
   const int nseg = w.g.max_seg - w.g.min_seg + 1;
 
-  // frames without a time mark inside [start,end) are a separate input class (see final report): rare, keyed separately
-  const bool sparse_marks_class = (mode == 1 || mode == 2) && rng.coin(0.06);
+  // frames without a time mark inside [start,end) are a separate input class (sparse time marks / acquisition gaps), keyed separately
+  const bool sparse_marks_class = (mode == 1 || mode == 2) && rng.coin(0.2);
   const bool has_delayeds = rng.coin(0.8);
   const int sp_sd = static_cast<int>(rng.range(0, 5));
   RunOpts base;
@@ -1339,19 +1339,23 @@ part_g(Ctx& ctx)
     }
   Expect x = model(w.st.recs, w.ev_bin, w.g, sel);
   long num_events_to_use = 0;
+  unsigned long cache_size = 0;
+  if (cache_kind == 1)
+    cache_size = static_cast<unsigned long>(rng.range(3, 40));
   if (sel_mode == 2)
     {
       if (x.stored < 2)
         throw vf::Skip("too few events for a cut-off");
-      num_events_to_use = rng.range(1, x.stored);
+      // num_events_to_use is only exercised where all events used fit into one batch of the record cache: the class counts
+      // the events per batch, so with a cache smaller than the number it uses every event of the stream; neither the property
+      // statement nor the documentation says what the number means across batches (see the builder's report)
+      num_events_to_use = rng.range(1, cache_kind == 1 ? std::min<long>(x.stored, static_cast<long>(cache_size) - 1) : x.stored);
       sel.cutoff = num_events_to_use;
       x = model(w.st.recs, w.ev_bin, w.g, sel);
     }
   const long n_used = x.stored;
-  unsigned long cache_size = 0;
   if (cache_kind == 1)
     {
-      cache_size = static_cast<unsigned long>(rng.range(3, 40));
       // an exactly full last batch leaves an empty batch behind, which LM_distributable_computation asserts against (debug builds)
       while (n_used > 0 && n_used % static_cast<long>(cache_size) == 0)
         ++cache_size;
